@@ -68,7 +68,8 @@ if [ "$ID" = C11 ]; then
 fi
 if [ "$ID" = C20 ]; then
   build main
-  go build "${MODFLAG[@]}" -tags verif -o "$WORK/c20proc" ./checks/c20/proc > "$WORK/build.proc.log" 2>&1 || { head -30 "$WORK/build.proc.log"; infra "cannot build the process harness with -tags verif"; }
+  # the daemon package of the process harness arms its timers through vtime's scaled real timers (overlay)
+  go build "${MODFLAG[@]}" -tags verif -overlay "$WORK/instr.main/overlay.json" -o "$WORK/c20proc" ./checks/c20/proc > "$WORK/build.proc.log" 2>&1 || { head -30 "$WORK/build.proc.log"; infra "cannot build the process harness with -tags verif"; }
   "$WORK/check.main" -id C20 -tier "$TIER" -root "$ROOT" -variant main -proc "$WORK/c20proc" -repo "$REPO" "${REPLAY[@]}"
   exit $?
 fi
